@@ -782,18 +782,28 @@ class RefResolver(object):
                 a URI fragment to resolve within it
         """
 
-        fragment = fragment.lstrip(u"/")
-        parts = unquote(fragment).split(u"/") if fragment else []
+        if fragment.startswith(u"/"):
+            # Exactly one slash introduces the first reference token
+            # (which may itself be empty).
+            fragment = fragment[1:]
+            parts = unquote(fragment).split(u"/")
+        else:
+            parts = unquote(fragment).split(u"/") if fragment else []
 
         for part in parts:
             part = part.replace(u"~1", u"/").replace(u"~0", u"~")
 
-            if isinstance(document, Sequence):
+            if (
+                isinstance(document, Sequence) and
+                not isinstance(document, str)
+            ):
                 # Array indexes should be turned into integers
-                try:
+                if part == u"0" or (
+                    part.isascii() and
+                    part.isdigit() and
+                    not part.startswith(u"0")
+                ):
                     part = int(part)
-                except ValueError:
-                    pass
             try:
                 document = document[part]
             except (TypeError, LookupError):
